@@ -24,6 +24,7 @@ Two parts, reported separately in the evidence.
 """
 from __future__ import annotations
 
+import copy as _copy
 import itertools
 import json
 import pickle
@@ -52,11 +53,15 @@ ASSUMPTIONS = [
     "frozendict is the pure-Python implementation (a subclass of dict), as installed here",
     "objects other than str/int/dict/set/list/tuple/frozenset/frozendict are atoms assumed immutable (None, float, …)",
     "pickle's byte encoding is CPython's and trusted; the model covers __getstate__/__setstate__",
+    "show_diagram (DFA / NFA / GNFA / DPDA / NPDA) cannot be exercised here: pygraphviz / coloraide are not installed, the method raises ImportError before touching the automaton; that it leaves its operand unchanged is therefore NOT observed by the histories",
+    "an exception inside a history that is not a documented refusal (AutomatonException subclasses; NotImplementedError of GNFA readers; ValueError of DFA.random_word) is reported as a failure",
 ]
-EXPLANATION = ("Theorems C18_* prove for the model: freeze leaves no mutable container in supported values, preserves the "
-               "abstract value, is idempotent; setattr/delattr always raise AttributeError; for every class the public "
-               "slots are exactly the __init__ parameters (regenerated tables) and copy/pickle return an object of the "
-               "same class with identical input_parameters. The monitored part (B) observes the real objects.")
+EXPLANATION = ("Theorems C18_* prove for the model: freeze (tuples entered, fix 3900daf) leaves no mutable container in any value "
+               "whose dict keys / set elements are hashable (every value Python can build), preserves the abstract value, is "
+               "idempotent; setattr/delattr raise AttributeError because the regenerated AST shape of the two hooks is a single "
+               "unconditional raise; for every class the public slots are exactly the __init__ parameters (regenerated tables, "
+               "defaults included) and copy/pickle return an object of the same class with identical input_parameters that "
+               "passes the constructor's validation again. The monitored part (B) observes the real objects.")
 TRUSTED_EXTRA = ["harness/monitor.py tracked containers (part B is observation, level 'other')"]
 
 DRV = "drv_misc"
@@ -507,12 +512,46 @@ def probe_default(ctx: Ctx, cls: str, kw, rng, origin: str):
 
 
 # ------------------------------------------------------------------ (B) monitored histories
+def extra_definition(obj):
+    """Definition attributes kept outside `input_parameters`: `__dict__` entries that are neither
+    private nor the per-instance caches of `cached_method` (those are keyed by the name of a method
+    of the class).  At present: GNFA.final_states = {final_state}, bound by GNFA.__init__ — under
+    the mutable option a plain `set` created inside the library, which no tracked container covers."""
+    return G.norm({k: v for k, v in getattr(obj, "__dict__", {}).items()
+                   if not k.startswith("_") and not hasattr(type(obj), k)})
+
+
 class Member:
     def __init__(self, cls, obj, kw, tracked: bool):
         self.cls, self.obj, self.kw, self.tracked = cls, obj, kw, tracked
         self.snap = G.snapshot(obj.input_parameters)
-        self.extra = G.norm({k: v for k, v in getattr(obj, "__dict__", {}).items()
-                             if k in ("final_states",)})
+        self.extra = extra_definition(obj)
+
+
+def _pickle_rt(m, a):
+    p = a["seed"] % (pickle.HIGHEST_PROTOCOL + 2)
+    return pickle.loads(pickle.dumps(m, protocol=None if p > pickle.HIGHEST_PROTOCOL else p))
+
+
+def roundtrip_ops(cls: str):
+    """pickle (every protocol), copy.copy, copy.deepcopy on an operand — they go through
+    __reduce_ex__ / __getstate__ / __setstate__; under the mutable option copy.copy returns an
+    automaton that *shares* every container with the operand, so later calls on it are watched
+    through the same tracked containers."""
+    return [
+        (f"{cls}.pickle.loads(pickle.dumps)", _pickle_rt),
+        (f"{cls}.copy.copy", lambda m, a: _copy.copy(m)),
+        (f"{cls}.copy.deepcopy", lambda m, a: _copy.deepcopy(m)),
+    ]
+
+
+ROUNDTRIP_SUFFIXES = (".copy", ".pickle.loads(pickle.dumps)", ".copy.copy", ".copy.deepcopy")
+
+# Refusals that are documented although they are not AutomatonExceptions (none at present besides
+# the ones misc_common.is_documented knows); an exception outside this list inside a history is
+# reported as a failure: an accepted automaton passed to a public operation must not crash.
+def documented_refusal(name: str, e: BaseException) -> bool:
+    return M.is_documented(name, e)
 
 
 @guarded
@@ -528,6 +567,12 @@ def history(ctx: Ctx, rng, mutable: bool, steps: int, classes: List[str], origin
                     kw = G.rand_def(rng, cls, junk=rng.random() < 0.3, alphabet=alphabet)
                     if cls == "NFA":
                         ensure_final_eps(rng, kw)
+                elif cls in ("MNTM", "NTM") and rng.random() < 0.3:
+                    kw = tuple_list_def(rng, cls)      # a tuple holding a list (tracked through the tuple)
+                elif cls in ("DPDA", "NPDA") and not mutable and rng.random() < 0.3:
+                    # (default mode only: with the list kept un-frozen under the mutable option the PDA
+                    # configurations are unhashable — an accepted-but-unusable shape that C19 judges)
+                    kw = tuple_list_def(rng, cls)
                 elif cls == "MNTM":
                     kw = G.rand_tm_def(rng, "MNTM", list_results=rng.random() < 0.5)
                 else:
@@ -544,7 +589,7 @@ def history(ctx: Ctx, rng, mutable: bool, steps: int, classes: List[str], origin
     trace = []
     for step in range(steps):
         m = rng.choice(pool)
-        ops1 = M.unary_ops(m.cls)
+        ops1 = M.unary_ops(m.cls) + roundtrip_ops(m.cls)
         ops2 = M.binary_ops(m.cls)
         a = M.arg_pack(rng, m.obj.input_symbols)
         if ops2 and rng.random() < 0.4:
@@ -570,12 +615,26 @@ def history(ctx: Ctx, rng, mutable: bool, steps: int, classes: List[str], origin
         ctx.stat(f"monitored(other):history:{'mutable' if mutable else 'default'}:{name}")
         rp = dict(kind="history", mutable=mutable, pool=build, trace=[(n, i, dict(ar)) for n, i, ar in trace][-12:],
                   step=step, classes=classes)
-        if res[0] == "err" and not M.is_documented(name, res[1]):
-            # not an immutability question (C19 judges undocumented errors); the operands must
-            # nevertheless be unchanged after a failed call, which is checked below
+        if res[0] == "err" and not documented_refusal(name, res[1]):
+            # an operation on accepted automata crashed instead of answering or refusing in a
+            # documented way: a failure (whether or not an operand was changed on the way, which
+            # is checked below all the same)
             ctx.stat("monitored(other):history:undocumented_exception")
-            if ctx.stats["monitored(other):history:undocumented_exception"] <= 3:
-                ctx.note(f"history: {name} raised {type(res[1]).__name__}: {str(res[1])[:100]} (judged by C19, not C18)")
+            ctx.prop_fail(f"history step {step}: {name} raised the undocumented {type(res[1]).__name__}: "
+                          f"{str(res[1])[:120]} (allow_mutable={mutable})", rp, None)
+        elif res[0] == "err":
+            ctx.stat(f"monitored(other):history:documented_refusal:{type(res[1]).__name__}")
+        # 0. copy() / pickle / copy.copy / copy.deepcopy: a new object of the same class with an
+        #    identical definition
+        if res[0] == "ok" and name.endswith(ROUNDTRIP_SUFFIXES) and name.startswith(m.cls + "."):
+            r = res[1]
+            if type(r) is not type(m.obj):
+                ctx.prop_fail(f"history step {step}: {name} returned a {type(r).__name__}", rp, None)
+            elif r is m.obj:
+                ctx.prop_fail(f"history step {step}: {name} returned the operand itself", rp, None)
+            elif G.norm(definition(r)) != G.norm(definition(m.obj)) or extra_definition(r) != extra_definition(m.obj):
+                ctx.prop_fail(f"history step {step}: {name}: definitions differ: {definition(m.obj)!r:.200} vs "
+                              f"{definition(r)!r:.200} (allow_mutable={mutable})", rp, None)
         # 1. no effective write to any tracked container
         ch = log.changes()
         if ch:
@@ -595,6 +654,12 @@ def history(ctx: Ctx, rng, mutable: bool, steps: int, classes: List[str], origin
                 ctx.prop_fail(f"history step {step}: {name} changed the definition of pool member {idx} ({x.cls}) "
                               f"(allow_mutable={mutable}; operand={x in operands})", rp, None)
                 x.snap = now
+            extra_now = extra_definition(x.obj)
+            if extra_now != x.extra:
+                ctx.prop_fail(f"history step {step}: {name} changed a definition attribute kept in __dict__ of pool "
+                              f"member {idx} ({x.cls}): {x.extra!r:.120} -> {extra_now!r:.120} "
+                              f"(allow_mutable={mutable}; operand={x in operands})", rp, None)
+                x.extra = extra_now
         # results join the pool
         if res[0] == "ok" and M.is_automaton(res[1]) and len(pool) < 14 and type(res[1]).__name__ in G.CLASSES:
             r = res[1]
